@@ -22,7 +22,7 @@ PostParts(e, nv) ==
      <<"get", metric = "cosine" \/ \A i \in DOMAIN e.got : (e.got[i][1] \in DOMAIN nv /\ e.got[i][2] = nv[e.got[i][1]])>>,
      <<"no_dangling_links", ~e.hasg \/ NoDangling(e.g, nv)>>,
      <<"entry_point", ~e.hasg \/ EntryOk(e.g, nv)>> >>
-OneSearch(e, q, k, ef, res) == IF e.hasg THEN SearchOk(e.g, vecs, metric, q, k, ef, res) ELSE (IF vecs = <<>> THEN res = <<>> ELSE Basic(vecs, metric, q, k, res))
+OneSearch(e, q, k, ef, res) == IF e.hasg THEN (IF "quant" \in DOMAIN e.g THEN QuantSearchOk(e.g, vecs, metric, q, k, res) ELSE SearchOk(e.g, vecs, metric, q, k, ef, res)) ELSE (IF vecs = <<>> THEN res = <<>> ELSE Basic(vecs, metric, q, k, res))
 \* --- quantisers (integer grids, exact in f32)
 \* scalar: ranges [lo, lo + 255 * s] per dimension
 SqParts(e) ==
